@@ -242,7 +242,10 @@ func runnerContext(c *an.Ctx, r *runnerRoles, rule string) {
 					ps = append(ps, k)
 				}
 				sort.Strings(ps)
-				ph := struct{ fn *ssa.Function; name string }{fn, kind}
+				ph := struct {
+					fn   *ssa.Function
+					name string
+				}{fn, kind}
 				key := an.Short(ph.fn) + ":Execute(ctx," + kind + ")"
 				good := len(provs) == 1 && provs["TaskRunner.ctx"]
 				if ph.name == "condition" {
